@@ -40,6 +40,13 @@ var c05classes = []c05class{
 	// the source lies on a host mount with shared propagation, and once the sandbox is set up the host mounts another
 	// file system below the source: the sandbox must keep seeing what was configured (the directory as it was), no new mount
 	{"bind-ro-dir-from-shared-mount+host-mounts-below-it-later", "dir", false},
+	// the source directory itself contains a mount (a tmpfs on src/sub): binds are recursive, so the nested mount comes
+	// along — declared read-only, it must be read-only there too
+	{"bind-ro-dir-whose-source-contains-a-mount", "dir", false},
+	// a read-only bind whose target path runs through a writable bind in which an earlier program planted a symbolic
+	// link as an intermediate component (t/lnk -> a host directory): the table is refused or the mount is in place; in
+	// no case may the launcher create anything at the link's destination on the host
+	{"bind-ro-dir-below-planted-symlink-component-in-rw-bind", "dir", false},
 }
 
 type fsReport struct {
@@ -115,7 +122,7 @@ func init() {
 		}
 		spec := &mc.Spec{
 			Level: "exploration",
-			Rule: "every mount table of ≤ maxLen entries over 15 entry classes (bind ro/rw of directories and files, tmpfs, proc ro/rw, nested target, missing source with FilterNotExist, read-only bind whose source lies on a nosuid/noexec/nodev mount, read-only binds written by hand with only MS_BIND|MS_RDONLY, read-only binds onto a symbolic link planted inside a writable bind, a read-only bind whose source lies on a host mount with shared propagation below which the host mounts another file system once the sandbox is set up) × both implementations of the mount sequence (raw in-child via the namespace runner, in-container; the container also with a symlink and with masked file/directory paths, named directly or through a configured symbolic link); " +
+			Rule: "every mount table of ≤ maxLen entries over 17 entry classes (bind ro/rw of directories and files, tmpfs, proc ro/rw, nested target, missing source with FilterNotExist, read-only bind whose source lies on a nosuid/noexec/nodev mount, read-only binds written by hand with only MS_BIND|MS_RDONLY, read-only binds onto a symbolic link planted inside a writable bind, a read-only bind whose source lies on a host mount with shared propagation below which the host mounts another file system once the sandbox is set up) × both implementations of the mount sequence (raw in-child via the namespace runner, in-container; the container also with a symlink and with masked file/directory paths, named directly or through a configured symbolic link, and in containers without /dev/null, with file and directory masks and with a directory mask alone); " +
 				"a probe inside reports the root listing, read-only flags and the outcome of create / mkdir / open-for-write / truncate / chmod / rename / unlink on the root and in every mount, '..' from the root, the old root, and seven escape routes to a host canary file; the host side reads /proc/<pid>/mountinfo of the sandboxed process. Oracle: reference model of the table. " +
 				"non-trivial: the table is not empty; distinct = (implementation, table, observations)",
 			Bound:       map[string]any{"max_entries": maxLen, "escape_routes": 7},
@@ -138,7 +145,7 @@ func init() {
 			cleanupTmp()
 		}
 		spec.Body = func(x *mc.X) {
-			impl := x.Pick("implementation", "namespace-runner", "container", "container+masks", "container+masks-without-devnull", "container+masks-through-link")
+			impl := x.Pick("implementation", "namespace-runner", "container", "container+masks", "container+masks-without-devnull", "container+masks-through-link", "container+dirmask-without-devnull")
 			n := x.Choose(maxLen+1, "entries")
 			var classes []c05class
 			procs := 0
@@ -172,6 +179,15 @@ func c05run(x *mc.X, impl string, classes []c05class) {
 	var names []string
 	plantedLink := false
 	var lateMounts, lateTargets []string
+	var nestedTargets, nestedSources, outsideDirs []string
+	// whatever happens, the launcher creates nothing at the destination of a planted link on the host
+	defer func() {
+		for _, o := range outsideDirs {
+			if ents, _ := os.ReadDir(o); len(ents) > 0 {
+				x.Failf("C05/"+impl+"/launcher-created-on-host-through-planted-link", "%s, table %v: the launcher followed the planted link and created %q in %s on the host, outside every declared source", impl, names, ents[0].Name(), o)
+			}
+		}
+	}()
 	for i, c := range classes {
 		names = append(names, c.name)
 		e := c05entry{class: c, target: fmt.Sprintf("t%d", i)}
@@ -209,6 +225,32 @@ func c05run(x *mc.X, impl string, classes []c05class) {
 			b.WithBind(src, e.target, true)
 			lateMounts = append(lateMounts, filepath.Join(src, "sub"))
 			lateTargets = append(lateTargets, "/"+e.target+"/sub")
+		case "bind-ro-dir-whose-source-contains-a-mount":
+			mkSourceDir(src)
+			if err := syscall.Mount("tmpfs", filepath.Join(src, "sub"), "tmpfs", 0, ""); err != nil {
+				x.Failf("C05/harness", "nested mount: %v", err)
+				return
+			}
+			nested := filepath.Join(src, "sub")
+			defer syscall.Unmount(nested, syscall.MNT_DETACH)
+			os.WriteFile(filepath.Join(nested, "inner"), []byte("inner"), 0666)
+			b.WithBind(src, e.target, true)
+			nestedTargets = append(nestedTargets, "/"+e.target+"/sub")
+			nestedSources = append(nestedSources, nested)
+			e.also = map[string]string{"/" + e.target + "/sub": "ro"} // a recursive bind brings it along: part of the declared entry
+		case "bind-ro-dir-below-planted-symlink-component-in-rw-bind":
+			dir := src + ".dir"
+			mkSourceDir(dir)
+			outside := filepath.Join(base, fmt.Sprintf("outside%d", i))
+			os.MkdirAll(outside, 0777)
+			os.Symlink(outside, filepath.Join(dir, "lnk"))
+			mkSourceDir(src)
+			b.WithBind(dir, e.target, false)
+			b.WithBind(src, e.target+"/lnk/ref", true)
+			e.also = map[string]string{"/" + e.target: "rw"}
+			e.target += "/lnk/ref"
+			plantedLink = true
+			outsideDirs = append(outsideDirs, outside)
 		case "hand-built-ro-bind":
 			mkSourceDir(src)
 			b.WithMount(mount.Mount{Source: src, Target: e.target, Flags: syscall.MS_BIND | syscall.MS_RDONLY})
@@ -248,12 +290,12 @@ func c05run(x *mc.X, impl string, classes []c05class) {
 	// masks (container only): a file and a directory inside the first directory bind
 	var maskFile, maskDir string
 	hasDevnull := impl == "container+masks" || impl == "container+masks-through-link"
-	if strings.HasPrefix(impl, "container+masks") {
+	if strings.HasPrefix(impl, "container+masks") || impl == "container+dirmask-without-devnull" {
 		if hasDevnull {
 			b.WithBind("/dev/null", "dev/null", false) // file masks are bind mounts of the container's /dev/null
 		}
 		for _, e := range entries {
-			if e.class.kind == "dir" && maskFile == "" && !strings.Contains(e.class.name, "host-mounts-below") {
+			if e.class.kind == "dir" && maskFile == "" && !strings.Contains(e.class.name, "host-mounts-below") && !strings.Contains(e.class.name, "contains-a-mount") && !strings.Contains(e.class.name, "planted-symlink-component") {
 				maskFile, maskDir = e.path+"/maskme", e.path+"/sub"
 			}
 		}
@@ -270,6 +312,7 @@ func c05run(x *mc.X, impl string, classes []c05class) {
 		argv = append(argv, maskFile, maskDir)
 	}
 	argv = append(argv, lateTargets...)
+	argv = append(argv, nestedTargets...)
 	// the host's later mounts: done when the sandbox's own mount sequence is over (container: after Build; namespace
 	// runner: inside the callback), undone when the run is over
 	lateDone := false
@@ -331,6 +374,9 @@ func c05run(x *mc.X, impl string, classes []c05class) {
 			cb.MaskPaths = []string{"/nonexistent-mask"}
 			if maskFile != "" {
 				cb.MaskPaths = []string{maskFile, maskDir}
+			}
+			if impl == "container+dirmask-without-devnull" {
+				cb.MaskPaths = []string{maskDir} // a directory is masked with a tmpfs: that needs no /dev/null
 			}
 			if impl == "container+masks-through-link" {
 				// the same two objects, named through a configured symbolic link to their directory
@@ -495,15 +541,30 @@ func c05run(x *mc.X, impl string, classes []c05class) {
 			}
 		}
 	}
+	for k, nt := range nestedTargets {
+		t := rep.Targets[nt]
+		var ok []string
+		for _, op := range []string{"create", "mkdir"} {
+			if rawInt(t, op) == 0 {
+				ok = append(ok, op)
+			}
+		}
+		if len(ok) > 0 {
+			fail("read-only-mount-modified/nested-mount-of-the-source", "%s (a mount nested in the source of a bind declared read-only) accepts %v", nt, ok)
+		}
+		if ents, _ := os.ReadDir(nestedSources[k]); len(ents) != 1 {
+			fail("host-source-modified/nested-mount-of-the-source", "the mount nested in the read-only source of %s was modified on the host", nt)
+		}
+	}
 	if maskFile != "" {
 		mf, md := rep.Targets[maskFile], rep.Targets[maskDir]
-		if rawInt(mf, "read_len") > 0 {
+		if impl != "container+dirmask-without-devnull" && rawInt(mf, "read_len") > 0 {
 			fail("mask-leaks-file", "masked file %s still has %d readable bytes", maskFile, rawInt(mf, "read_len"))
 		}
 		if l := rawList(md, "list"); len(l) > 0 {
 			fail("mask-leaks-directory", "masked directory %s still lists %v", maskDir, l)
 		}
-		if hasDevnull {
+		if hasDevnull || impl == "container+dirmask-without-devnull" {
 			// a mask is not a mount declared writable: what hides the directory must not be a place to write to
 			for _, op := range []string{"create", "mkdir"} {
 				if v, ok := md[op]; ok && rawInt(md, op) == 0 {
@@ -550,7 +611,9 @@ func c05run(x *mc.X, impl string, classes []c05class) {
 		}
 	}
 	if maskFile != "" {
-		wantMounts[maskFile] = ""
+		if impl != "container+dirmask-without-devnull" {
+			wantMounts[maskFile] = ""
+		}
 		wantMounts[maskDir] = ""
 	}
 	for p, ro := range wantMounts {
